@@ -25,6 +25,27 @@ def _pred_call(e):
                                    for p in PRED_PREFIX)
 
 
+def _table_column(loop, name, fn):
+    """values a loop target takes when the loop runs over a literal table (`for key, builder, mandatory in ((..), (..))`, the
+    table written in place or assigned once to a local): the entries of that column; [None] when the iterable is not a literal"""
+    it = loop.iter
+    if isinstance(it, ast.Name):
+        defs = [n.value for n in ast.walk(fn) if isinstance(n, ast.Assign) and len(n.targets) == 1 and
+                isinstance(n.targets[0], ast.Name) and n.targets[0].id == it.id]
+        it = defs[0] if len(defs) == 1 else it
+    if not isinstance(it, (ast.Tuple, ast.List)) or not it.elts:
+        return [None]
+    tg = loop.target
+    if isinstance(tg, ast.Name):
+        return list(it.elts) if tg.id == name else [None]
+    if isinstance(tg, (ast.Tuple, ast.List)) and all(isinstance(x, ast.Name) for x in tg.elts):
+        k = [x.id for x in tg.elts].index(name)
+        rows = it.elts
+        if all(isinstance(r, (ast.Tuple, ast.List)) and len(r.elts) == len(tg.elts) for r in rows):
+            return [r.elts[k] for r in rows]
+    return [None]
+
+
 def boolish(e, fn, depth=0):
     """is expression e boolean-valued, as far as the function's own text says?"""
     if isinstance(e, ast.Constant):
@@ -66,7 +87,7 @@ def boolish(e, fn, depth=0):
             elif isinstance(n, (ast.For, ast.comprehension)):
                 for t in ast.walk(n.target):
                     if isinstance(t, ast.Name) and t.id == e.id:
-                        vals.append(None)
+                        vals.extend(_table_column(n, e.id, fn))
         if any(isinstance(v, ast.Constant) and isinstance(v.value, bool) for v in vals if v is not None):
             return True      # a flag: one of its assignments is a literal True / False
         return bool(vals) and all(v is not None and boolish(v, fn, depth + 1) for v in vals)
